@@ -99,8 +99,8 @@ Lemma e2_rjust : forall width,
 Proof. intros. unfold go_rjust. cbv zeta. reflexivity. Qed.
 
 (* get_digit: when the input is handed back unchanged *)
-Lemma e2_get_digit : forall i l,
-  go_get_digit i l = (((i <=? 0) || (l <? i)), i, l).
+Lemma e2_get_digit : forall i l c,
+  go_get_digit i l c = (((i <=? 0) || (l <? i)), ((c <? 48) || (57 <? c)), i, l, c).
 Proof. intros. reflexivity. Qed.
 
 Lemma wrap64_range : forall z, - two63 <= wrap64 z < two63.
